@@ -44,6 +44,31 @@ M=[
  ("eval_gathers_outputs_through_finite_function","src/strict/eval.rs",
   "    let outputs = mem.0.gather(f.t.table.get_range(..));\n    (mem.0, outputs)",
   "    let outputs = (&f.t >> &mem).unwrap().0;\n    (mem.0, outputs)"),
+
+ ("strict_twist_with_twisted_target_leg","src/strict/open_hypergraph/arrow.rs",
+  "        let s = FiniteFunction::twist(a.len(), b.len());\n        let t = FiniteFunction::identity(a.len() + b.len());\n\n        // NOTE: because the *source* map is twist, the internal labelling of wires\n        // is `b + a` instead of `a + b`. This matters!\n        let h = Hypergraph::discrete(b + a);",
+  "        // the other (isomorphic) presentation: wires labelled a + b, the *target* leg permutes\n        let s = FiniteFunction::identity(a.len() + b.len());\n        let t = FiniteFunction::twist(b.len(), a.len());\n        let h = Hypergraph::discrete(a + b);"),
+ ("lax_quotient_fast_path_without_pending_pairs","src/lax/hypergraph.rs",
+  "        use std::mem::take;\n        let q = self.coequalizer();\n",
+  "        use std::mem::take;\n        if self.quotient.0.is_empty() {\n            // nothing pending: the quotient map is the identity and nothing changes\n            return Ok(<FiniteFunction<VecKind> as crate::category::Arrow>::identity(self.nodes.len()));\n        }\n        let q = self.coequalizer();\n"),
+ ("kahn_unvisited_keep_last_layer_number","src/strict/graph.rs",
+  "    let mut order: K::Type<K::I> = K::Type::<K::I>::fill(K::I::zero(), adjacency.len());",
+  "    // operations that are never visited keep the largest legal layer number instead of 0\n    let filler = if adjacency.len() == K::I::zero() { K::I::zero() } else { adjacency.len() - K::I::one() };\n    let mut order: K::Type<K::I> = K::Type::<K::I>::fill(filler, adjacency.len());"),
+ ("lax_delete_edges_via_retain","src/lax/hypergraph.rs",
+  "        let mut edges = Vec::with_capacity(edge_count - remove_count);\n        let mut adjacency = Vec::with_capacity(edge_count - remove_count);\n        for (i, (edge, adj)) in self\n            .edges\n            .drain(..)\n            .zip(self.adjacency.drain(..))\n            .enumerate()\n        {\n            if !remove[i] {\n                edges.push(edge);\n                adjacency.push(adj);\n            }\n        }\n\n        self.edges = edges;\n        self.adjacency = adjacency;",
+  "        let _ = remove_count;\n        let mut i = 0;\n        self.edges.retain(|_| {\n            let keep = !remove[i];\n            i += 1;\n            keep\n        });\n        let mut j = 0;\n        self.adjacency.retain(|_| {\n            let keep = !remove[j];\n            j += 1;\n            keep\n        });"),
+ ("functor_composes_right_to_left","src/strict/functor/traits.rs",
+  "    sx.compose(&i.tensor(&fx)).unwrap().compose(&yt).unwrap()",
+  "    sx.compose(&i.tensor(&fx).compose(&yt).unwrap()).unwrap()"),
+ ("open_quotient_rewrites_interfaces_with_map","src/lax/open_hypergraph.rs",
+  "        self.sources\n            .iter_mut()\n            .for_each(|x| *x = NodeId(q.table[x.0]));\n        self.targets\n            .iter_mut()\n            .for_each(|x| *x = NodeId(q.table[x.0]));",
+  "        self.sources = self.sources.iter().map(|x| NodeId(q.table[x.0])).collect();\n        self.targets = self.targets.iter().map(|x| NodeId(q.table[x.0])).collect();"),
+ ("dagger_via_new","src/strict/open_hypergraph/arrow.rs",
+  "        OpenHypergraph {\n            s: self.t.clone(),\n            t: self.s.clone(),\n            h: self.h.clone(),\n        }\n    }\n\n    fn spider(",
+  "        match OpenHypergraph::new(self.t.clone(), self.s.clone(), self.h.clone()) {\n            Ok(d) => d,\n            Err(_) => panic!(\"dagger of a valid diagram is valid\"),\n        }\n    }\n\n    fn spider("),
+ ("var_build_targets_before_sources","src/lax/var/var.rs",
+  "        state.borrow_mut().sources = s.iter().map(|x| x.new_source()).collect();\n        state.borrow_mut().targets = t.iter().map(|x| x.new_target()).collect();",
+  "        let targets: Vec<NodeId> = t.iter().map(|x| x.new_target()).collect();\n        let sources: Vec<NodeId> = s.iter().map(|x| x.new_source()).collect();\n        state.borrow_mut().sources = sources;\n        state.borrow_mut().targets = targets;"),
 ]
 def sh(*a, **k): return subprocess.run(a, capture_output=True, text=True, **k)
 def main():
